@@ -5,7 +5,8 @@ Streams
          definition evaluated at Rat by the driver (mean, mean_squared, mae, mape — exactly; rmse^2 against
          mean_squared and msle against an mpmath reference to 1e-12) vs an independent Fraction formula (oracle).
   prop   the property itself per loss on the same data: 0 at the data, >= 0, 0 only at the data, not lowered by
-         scaling the prediction up — cosine_similarity and mean fail it (listed findings).
+         scaling the prediction up (cosine_similarity: -1 at the data, nothing below, scale invariant) — mean fails
+         it (listed finding).
   scale  `_Settings.loss` with/without standard scaling vs the generated `settingsLoss` (tolerance 1e-9: std/sqrt).
   resid  residual functions at the true parameters of identifiable linear models (steady state, time course,
          protocol; scaled/unscaled; every good loss) are ~0.
@@ -25,7 +26,7 @@ from vlib import driver
 PROPS = ["MxlVerif.Props.C20"]
 EXACT = ["mean", "mean_squared", "mae", "mean_absolute_percentage"]
 GOOD = ["mean_squared", "rmse", "mae", "mean_absolute_percentage", "mean_squared_logarithmic"]
-FINDING = {"cosine_similarity": "F-C20-1", "mean": "F-C20-2"}
+FINDING = {"mean": "F-C20-2"}
 ALL = ["cosine_similarity", "mae", "mean", "mean_absolute_percentage", "mean_squared", "mean_squared_logarithmic", "rmse"]
 
 
@@ -59,7 +60,7 @@ def reference_float(name, d, p):
     if name == "mean_squared_logarithmic":
         return float(sum((mpmath.log(a + 1) - mpmath.log(b + 1)) ** 2 for a, b in zip(D, P)) / n)
     if name == "cosine_similarity":
-        return float(-mpmath.sqrt(sum(a * a for a in D)) * mpmath.sqrt(sum(b * b for b in P)))
+        return float(-sum(a * b for a, b in zip(D, P)) / (mpmath.sqrt(sum(a * a for a in D)) * mpmath.sqrt(sum(b * b for b in P))))
     raise ValueError(name)
 
 
@@ -148,11 +149,27 @@ def judge_loss(ctx, c, r, m_all):
         M = None
         if name == "rmse" and m_val is not None:  # the driver's mean_squared is rmse^2
             M = {"value_close": abs(math.sqrt(float(F(m_val))) - ref) <= 1e-12 * max(1.0, abs(ref))}
+        if name == "cosine_similarity" and m_val is not None:  # the driver's (inner product, |d|^2, |p|^2)
+            M = {"value_close": abs(cos_from_parts(m_val) - ref) <= 1e-12 * max(1.0, abs(ref))}
         ctx.judge({"stream": "val", **c}, R, {"value_close": True}, M, what=f"losses.{name} vs 40-digit reference")
-    if "frame" in r and name != "cosine_similarity":  # norm(DataFrame, 2) is the spectral norm: not modelled
+    if "frame" in r:
         ctx.judge({"stream": "frame", **c}, {"same": abs(r["frame"] - r["dp"]) <= 1e-12 * max(1.0, abs(r["dp"]))},
                   {"same": True}, None, what=f"losses.{name} on a DataFrame = on its flattened values")
     # --- the property on this input
+    if name == "cosine_similarity":
+        # minus the cosine of the angle: -1 at the data, nothing below it, unchanged by scaling the prediction up
+        tol = 1e-12
+        R = {"at_data": abs(r["dd"] + 1.0) <= tol, "minimal_at_data": r["dp"] >= r["dd"] - tol,
+             "scale_invariant": abs(r["dlp"] - r["dp"]) <= tol, "scaling_up_not_rewarded": not (r["dlp"] < r["dd"] - tol)}
+        S = {"at_data": True, "minimal_at_data": True, "scale_invariant": True, "scaling_up_not_rewarded": True}
+        M = None
+        if m_val is not None:
+            vdp, vdd, vdlp = cos_from_parts(m_val), cos_from_parts(mdd), cos_from_parts(mdlp)
+            M = {"at_data": abs(vdd + 1.0) <= tol, "minimal_at_data": vdp >= vdd - tol,
+                 "scale_invariant": abs(vdlp - vdp) <= tol, "scaling_up_not_rewarded": not (vdlp < vdd - tol)}
+        ctx.judge({"stream": "prop", **c}, R, S, M,
+                  what="losses.cosine_similarity: -1 at the data, minimal there, invariant under scaling the prediction")
+        return
     tol = 0.0 if (sv is not None and exact_len) else 1e-12
     R = {"zero_at_data": abs(r["dd"]) <= tol, "nonneg": r["dp"] >= -tol,
          "zero_only_at_data": (abs(r["dp"]) <= tol) == (d == p),
@@ -167,6 +184,13 @@ def judge_loss(ctx, c, r, m_all):
             M = None  # float rounding of /n can turn an exact 0 into 1e-17; the model is compared on the exact stratum
     ctx.judge({"stream": "prop", **c}, R, S, M, finding=FINDING.get(name),
               what=f"losses.{name}: discrepancy-measure laws on this (data, prediction, factor)")
+
+
+def cos_from_parts(m):
+    """the driver returns the exact inner product and squared norms (the vocabulary the generated definition is built
+    from); the square roots are taken here"""
+    dot, a, b = (F(x) for x in m)
+    return -float(dot) / (math.sqrt(float(a)) * math.sqrt(float(b)))
 
 
 def model_losses(ctx, cases):
@@ -190,6 +214,17 @@ def real_settings(batch):
     from mxlpy.fit.abstract import _Settings
     out = []
     for c in batch:
+        if c.get("fcols"):
+            # time-course shaped data: a DataFrame, one column per measured quantity, None = not measured at that time
+            import numpy as np
+            idx = [float(i) for i in range(len(next(iter(c["fcols"].values()))))]
+            df = pd.DataFrame({k: [np.nan if x is None else float(F(x)) for x in col] for k, col in c["fcols"].items()}, index=idx)
+            pf = pd.DataFrame({k: [float(F(x)) for x in col] for k, col in c["fpred"].items()}, index=idx)
+            s = _Settings(model=None, data=df, y0=None, integrator=None, loss_fn=getattr(losses, c["loss"]), p_names=[],
+                          v_names=[], standard_scale=c["on"])
+            with _np_quiet():
+                out.append({"v": float(s.loss(pf)), "at_data": float(s.loss(df.fillna(pf)))})
+            continue
         d = pd.Series([float(F(x)) for x in c["d"]], index=[f"x{i}" for i in range(len(c["d"]))])
         p = pd.Series([float(F(x)) for x in c["p"]], index=d.index)
         s = _Settings(model=None, data=d, y0=None, integrator=None, loss_fn=getattr(losses, c["loss"]), p_names=[],
@@ -198,7 +233,51 @@ def real_settings(batch):
     return out
 
 
+def gen_frame_settings_case(rng, shape):
+    """data frames as time-course fits get them: dense, a constant column, ONE row, a column measured only once"""
+    pool = [F(k, 4) for k in range(-8, 13) if k != 0]
+    n = 1 if shape == "one-row" else rng.choice([2, 3, 4, 5])
+    cols = {}
+    for name in rng.sample(["x", "y", "v1"], rng.randint(1, 3)):
+        col = [rng.choice(pool) for _ in range(n)]
+        if shape == "constant-column" and len(cols) == 0:
+            col = [col[0]] * n
+        cols[name] = col
+    pred = {k: [x + rng.choice([0, F(1, 2), -1, 2]) for x in col] for k, col in cols.items()}
+    data = {k: [q(x) for x in col] for k, col in cols.items()}
+    if shape == "measured-once" and n > 1:
+        k = rng.choice(sorted(data))
+        keep = rng.randrange(n)
+        data[k] = [x if i == keep else None for i, x in enumerate(data[k])]
+    return {"fcols": data, "fpred": {k: [q(x) for x in col] for k, col in pred.items()}, "loss": rng.choice(["mean_squared", "mae", "rmse"]),
+            "on": rng.random() < 0.85, "shape": shape}
+
+
+def judge_frame_settings(ctx, c, r):
+    ctx.count(c, f"settings-frame:{c['shape']}:{c['loss']}:{'scaled' if c['on'] else 'plain'}:{len(c['fcols'])}cols")
+    import numpy as np
+    devs = []
+    for k, col in c["fcols"].items():
+        meas = [i for i, x in enumerate(col) if x is not None]
+        d = np.array([float(F(col[i])) for i in meas])
+        pr = np.array([float(F(c["fpred"][k][i])) for i in meas])
+        mu, sd = 0.0, 1.0
+        if c["on"]:
+            mu = float(d.mean())
+            sd = float(d.std(ddof=1)) if len(d) > 1 else float("nan")
+            sd = sd if sd > 0 else 1.0  # no spread / a single measurement: compared unscaled
+        devs += list(((d - mu) / sd) - ((pr - mu) / sd))
+    devs = np.array(devs)
+    sv = {"mean_squared": float(np.mean(devs ** 2)), "rmse": float(np.sqrt(np.mean(devs ** 2))), "mae": float(np.mean(np.abs(devs)))}[c["loss"]]
+    R = {"close": abs(r["v"] - sv) <= 1e-9 * max(1.0, abs(sv)), "zero_at_data": abs(r["at_data"]) <= 1e-12}
+    ctx.judge({"stream": "scale", **c}, R, {"close": True, "zero_at_data": True}, None,
+              what="_Settings.loss on a data FRAME: per-column mean/std of the measured points, a column without spread unscaled")
+
+
 def judge_settings(ctx, c, r, rng_unused=None):
+    if c.get("fcols"):
+        judge_frame_settings(ctx, c, r)
+        return
     ctx.count(c, f"settings:{c['loss']}:{'scaled' if c['on'] else 'plain'}")
     d = [F(x) for x in c["d"]]
     p = [F(x) for x in c["p"]]
@@ -712,6 +791,19 @@ def gen_quad_case(rng):
     p0 = {n: q(target[n] * rng.choice([F(3, 4), F(5, 4), F(3, 2), 1])) for n in names}
     c = {"quad": True, "kind": rng.choice(["steady_state", "time_course", "protocol"]), "p0": p0,
          "target": {n: q(v) for n, v in target.items()}, "method": rng.choice(["L-BFGS-B", "L-BFGS-B", "Nelder-Mead", "Powell", "TNC", "SLSQP"])}
+    if rng.random() < 0.3:
+        # the global optimisers; they are started from the boxes, so every fitted name gets one around the target
+        c["global"] = rng.choice(["differential_evolution", "shgo", "dual_annealing", "direct", "basinhopping"])
+        c["np_seed"] = rng.randrange(1 << 16)
+        order = list(names)
+        rng.shuffle(order)  # the caller's order, not p0's
+        c["bounds"] = {}
+        for n in order:
+            t = target[n]
+            lo, hi = rng.choice([(t / 4, t * 4), (t / 2, t * 2), (t * F(9, 8), t * 3)])
+            lo, hi = min(lo, F(p0[n])), max(hi, F(p0[n]))
+            c["bounds"][n] = [q(lo), q(hi)]
+        return c
     if rng.random() < 0.8:
         names_b = [n for n in names if rng.random() < 0.6] or [names[-1]]
         rng.shuffle(names_b)  # the caller's order, not p0's
@@ -731,6 +823,7 @@ def real_quad_case(c):
     import pandas as pd
     import scipy.optimize
     logging.getLogger("mxlpy").setLevel(logging.ERROR)
+    logging.getLogger().setLevel(logging.ERROR)  # scipy's shgo reports through the root logger
     warnings.filterwarnings("ignore")
     from mxlpy import fit, make_protocol
     from mxlpy.minimizers import _scipy as ms
@@ -744,16 +837,34 @@ def real_quad_case(c):
                    bounds=[list(b) for b in kw.get("bounds") or []])
         return res
 
+    def recording_global(name):
+        real = getattr(scipy.optimize, name)
+
+        def f(fun, *a, **kw):
+            res = real(fun, *a, **kw)
+            rec.update(x0=list(p0.values()), x=[float(t) for t in res.x], fun=float(res.fun), success=bool(res.success),
+                       bounds=None if not a else [[float(t) for t in b] for b in a[0]])
+            return res
+        return f
+
     model = build("chain", {"k1": 1.0, "k2": 2.0, "k3": 1.0})
     before = fingerprint(model)
     fitfn = {"steady_state": fit.steady_state, "time_course": fit.time_course, "protocol": fit.protocol_time_course}[c["kind"]]
     kw = dict(p0=p0, data=data, minimizer=fit.LocalScipyMinimizer(tol=1e-10, method=c["method"]), residual_fn=quad_residual)
+    if c.get("global"):
+        import numpy as np
+        np.random.seed(c["np_seed"])  # the stochastic global methods draw from numpy's global generator
+        kw["minimizer"] = ms.GlobalScipyMinimizer(method=c["global"])
     if c.get("bounds"):
         kw["bounds"] = {k: tuple(float(F(t)) for t in v) for k, v in c["bounds"].items()}
     if c["kind"] == "protocol":
         kw["protocol"] = make_protocol([(1, {"k1": 1.0})])
+    glob = ["basinhopping", "differential_evolution", "shgo", "dual_annealing", "direct"]
     old = ms.minimize
+    old_glob = {g: getattr(ms, g) for g in glob}
     ms.minimize = recording_minimize
+    for g in glob:
+        setattr(ms, g, recording_global(g))
     out = {}
     try:
         try:
@@ -762,6 +873,8 @@ def real_quad_case(c):
             return {"raised": type(e).__name__, "rec": rec, "after_equal": fingerprint(model) == before}
     finally:
         ms.minimize = old
+        for g in glob:
+            setattr(ms, g, old_glob[g])
     out["rec"] = rec
     out["after_equal"] = fingerprint(model) == before
     val = res.value
@@ -773,7 +886,7 @@ def real_quad_case(c):
 
 
 def judge_quad(ctx, c, r):
-    ctx.count(c, f"wrapper:{c['kind']}:{c['method']}:{len(c['p0'])}names:" + (
+    ctx.count(c, f"wrapper:{c['kind']}:{c.get('global') or c['method']}:{len(c['p0'])}names:" + (
         "no-bounds" if not c.get("bounds") else ("bounds-in-p0-order" if list(c["bounds"]) == [k for k in c["p0"] if k in c["bounds"]]
                                                  and list(c["p0"])[: len(c["bounds"])] == list(c["bounds"]) else "bounds-other-order/subset")))
     rec = r["rec"]
@@ -787,22 +900,27 @@ def judge_quad(ctx, c, r):
         Sb = [w if w is not None else (Mb[i] if Mb else Rb[i]) for i, w in enumerate(want)]
         ctx.judge({"stream": "bounds", **c}, Rb, Sb, Mb, what="boxes passed to scipy.optimize.minimize follow the names of p0")
     if "raised" in r or isinstance(r.get("fit"), str):
-        ctx.judge({"stream": "quad", **c}, {"input_untouched": r["after_equal"]}, {"input_untouched": True}, None,
-                  what="failed / raising minimisation leaves the input alone")
+        # a FitFailure value is an honest outcome; an exception out of a shipped minimiser on a well-formed request is not
+        ctx.judge({"stream": "quad", **c}, {"input_untouched": r["after_equal"], "raised": r.get("raised")},
+                  {"input_untouched": True, "raised": None}, None,
+                  what="a minimisation that does not succeed is a FitFailure value (no exception) and leaves the input alone")
         return
     f = r["fit"]
     tgt = {k: float(F(v)) for k, v in c["target"].items()}
     quad = lambda d: sum((d[k] - tgt[k]) ** 2 for k in tgt)  # noqa: E731
     best = dict(f["best"])
     tolr = 1e-12 * max(1.0, abs(f["loss"]))
+    glob = c.get("global")
     R = {"loss_is_residual_at_best": abs(f["loss"] - quad(best)) <= tolr,
-         "loss_le_residual_p0": f["loss"] <= quad({k: float(F(v)) for k, v in c["p0"].items()}) + tolr,
+         # the global optimisers do not start from p0: nothing is promised relative to it
+         "loss_le_residual_p0": True if glob else f["loss"] <= quad({k: float(F(v)) for k, v in c["p0"].items()}) + tolr,
          "names": list(best), "input_untouched": r["after_equal"],
          "best_within_requested_bounds": all(float(F(c["bounds"][k][0])) - 1e-9 <= v <= float(F(c["bounds"][k][1])) + 1e-9
                                              for k, v in best.items() if k in (c.get("bounds") or {}))}
     S = {"loss_is_residual_at_best": True, "loss_le_residual_p0": True, "names": list(c["p0"]), "input_untouched": True,
          "best_within_requested_bounds": True}
-    ctx.judge({"stream": "quad", **c}, R, S, None, what="fit.* through a caller-supplied residual: honest loss, names, boxes respected")
+    ctx.judge({"stream": "quad", **c}, R, S, None, finding="F-C20-9" if glob == "basinhopping" else None,
+              what="fit.* through a caller-supplied residual: honest loss, names, boxes respected")
     if ctx.driver_ok:
         (mv,) = driver.call_batch([{"op": "c20", "fit": {"p0": [[k, q(F(v))] for k, v in c["p0"].items()],
                                                          "res": [[q(F(x)) for x in rec["x"]], q(F(rec["fun"]))]}}])
@@ -811,12 +929,439 @@ def judge_quad(ctx, c, r):
                   mv, what="Fit(best_pars, loss) = names of p0 zipped with res.x, res.fun")
 
 
+# ----------------------------------------------------------------------------- the drivers with a scripted minimiser
+class ScriptedMinimizer:
+    """deterministic stand-in for an optimiser, passed through the public `minimizer=`: evaluates the residual at p0 and
+    then at every scripted candidate of the right dimension, in order, and reports the FIRST point with the least value
+    (Lean: `scriptedMinimise`).  `fail`: report FitFailure after the evaluations; `fail_if_start_inf`: ... when the start
+    cannot be simulated."""
+
+    def __init__(self, cands, fail=False, fail_if_start_inf=False):
+        self.cands, self.fail, self.fail_if_start_inf, self.trace = cands, fail, fail_if_start_inf, []
+
+    def __call__(self, residual_fn, p0, bounds):
+        from mxlpy.minimizers.abstract import OptimisationState
+        from mxlpy.types import FitFailure, Result
+        names = list(p0)
+        best_x = [float(v) for v in p0.values()]
+        start_f = best_f = float(residual_fn(dict(zip(names, best_x))))
+        self.trace = [(list(best_x), best_f)]
+        for c in self.cands:
+            if len(c) != len(names):
+                continue
+            f = float(residual_fn(dict(zip(names, c))))
+            self.trace.append((list(c), f))
+            if not best_f <= f:
+                best_x, best_f = list(c), f
+        if self.fail or (self.fail_if_start_inf and start_f == float("inf")):
+            return Result(FitFailure(extra_info=["scripted failure"]))
+        return Result(OptimisationState(parameters=dict(zip(names, best_x)), residual=best_f))
+
+
+def ext(x) -> str:
+    x = float(x)
+    return "inf" if x == float("inf") else q(F(x))
+
+
+def vals_of(model):
+    return {"pars": [[k, ext(v)] for k, v in model.get_parameter_values().items()],
+            "vars": [[k, ext(v)] for k, v in model.get_initial_conditions().items()]}
+
+
+FIT_FN = {"steady_state": "steady_state", "time_course": "time_course", "protocol": "protocol_time_course"}
+
+
+def gen_driver_case(rng):
+    kind = rng.choice(["steady_state", "time_course", "protocol"])
+    true = {"k1": rng.choice([1.0, 2.0]), "k2": rng.choice([2.0, 1.5, 3.0]), "k3": rng.choice([1.0, 0.5])}
+    pool = ["k2", "k3"] + (["k1"] if kind != "protocol" else [])
+    names = rng.sample(pool, rng.randint(1, 2))
+    if rng.random() < 0.45:
+        names.append("x")  # an initial condition among the fitted names
+    if rng.random() < 0.2:
+        names.append("zz")  # neither a parameter nor a variable of the model
+    rng.shuffle(names)
+    truth = {**true, "x": 1.0, "zz": 7.0}
+    p0 = {n: truth[n] * rng.choice([0.75, 1.25, 1.5]) for n in names}
+    cands = []
+    for _ in range(rng.randint(2, 4)):
+        r = rng.random()
+        if r < 0.3:
+            cands.append([truth[n] for n in names])  # the truth itself
+        elif r < 0.45 and kind == "steady_state" and "k2" in names:
+            cands.append([-0.5 if n == "k2" else truth[n] for n in names])  # no steady state: residual inf
+        elif r < 0.55:
+            cands.append([truth[n] for n in names] + [1.0])  # wrong dimension: skipped
+        else:
+            cands.append([truth[n] * rng.choice([0.5, 0.875, 1.125, 2.0]) for n in names])
+    if rng.random() < 0.5:
+        cands.append([truth[n] * rng.choice([0.25, 3.0]) for n in names])  # a poor LAST evaluation
+    y0 = rng.choice([None, None, {"y": 0.25}, {"x": 2.0, "y": 0.25}])
+    if rng.random() < 0.06:
+        y0 = {"nope": 1.0}
+    return {"drv": True, "kind": kind, "model": "chain", "true": true, "p0": p0, "cands": cands, "y0": y0,
+            "as_deepcopy": rng.random() < 0.5, "fail": rng.random() < 0.1, "loss": rng.choice(["rmse", "mean_squared", "mae"]),
+            "scaled": rng.random() < 0.5, "cols": rng.choice([["x", "y"], ["y"], ["y", "x"]])}
+
+
+def _hand_or_inf(c, data, values, true):
+    try:
+        return hand_residual(c, data, values, true)
+    except Exception:  # noqa: BLE001  the simulation failed: the residual functions return inf
+        return float("inf")
+
+
+def real_driver_case(c):
+    import logging
+    import warnings
+    logging.getLogger("mxlpy").setLevel(logging.ERROR)
+    warnings.filterwarnings("ignore")
+    from mxlpy import fit
+    from mxlpy.fit import losses
+    true = c["true"]
+    full, proto = make_data(c["kind"], true)
+    data = full[c["cols"]]
+    model = build("chain", {"k1": true["k1"], "k2": 1.0, "k3": 2.0})
+    before_vals, before_fp = vals_of(model), fingerprint(model)
+    mini = ScriptedMinimizer(c["cands"], fail=c["fail"])
+    kw = dict(p0=dict(c["p0"]), data=data, minimizer=mini, y0=None if c["y0"] is None else dict(c["y0"]),
+              loss_fn=getattr(losses, c["loss"]), standard_scale=c["scaled"], as_deepcopy=c["as_deepcopy"])
+    if c["kind"] == "protocol":
+        kw["protocol"] = proto
+    out = {"before": before_vals}
+    try:
+        res = getattr(fit, FIT_FN[c["kind"]])(model, **kw)
+    except Exception as e:  # noqa: BLE001
+        out.update(raised=type(e).__name__, caller=vals_of(model), trace=[[[ext(x) for x in xs], ext(f)] for xs, f in mini.trace])
+        return out
+    out["trace"] = [[[ext(x) for x in xs], ext(f)] for xs, f in mini.trace]
+    out["nan"] = any(f != f for _, f in mini.trace)
+    out["caller"] = vals_of(model)
+    out["caller_fp_same"] = fingerprint(model) == before_fp
+    val = res.value
+    if type(val).__name__ != "Fit":
+        out["fit"] = None
+        return out
+    out["fit"] = {"best": [[k, ext(v)] for k, v in val.best_pars.items()], "loss": ext(val.loss)}
+    out["work"] = vals_of(val.model)
+    out["same_object"] = val.model is model
+    # the property's words, by hand: start values of the caller's model, y0, then the candidate
+    base = {k: float(F(v)) for k, v in before_vals["pars"]}
+    hc = {"kind": c["kind"], "model": "chain", "scaled": c["scaled"], "loss": c["loss"], "y0": None}
+    y0 = c["y0"] or {}
+    def by_hand(values):
+        known = {k: v for k, v in values.items() if k in base or k in ("x", "y")}
+        return _hand_or_inf(hc, data, {**base, **{"x": 1.0, "y": 0.5}, **y0, **known}, true)
+    out["hand_best"] = by_hand({k: float(v) for k, v in val.best_pars.items()})
+    out["hand_p0"] = by_hand(dict(c["p0"]))
+    # the loss of the model object that was handed back, as it is (no further updates)
+    s = settings_for(c["kind"], val.model, data, proto, c["loss"], c["scaled"], {})
+    resid = {"steady_state": fit.steady_state_residual, "time_course": fit.time_course_residual,
+             "protocol": fit.protocol_time_course_residual}[c["kind"]]
+    out["loss_of_returned_model"] = float(resid({}, s))
+    return out
+
+
+def _close(a, b, rel=1e-7):
+    if a == b:
+        return True
+    return abs(a - b) <= rel * max(1.0, abs(a), abs(b))
+
+
+def judge_driver(ctx, c, r):
+    names = list(c["p0"])
+    shape = (f"drv:{c['kind']}:{len(names)}names:{'x' if 'x' in names else '-'}{'z' if 'zz' in names else '-'}:"
+             f"y0={'none' if c['y0'] is None else '+'.join(c['y0'])}:{'copy' if c['as_deepcopy'] else 'nocopy'}:"
+             f"{'fail' if c['fail'] else 'ok'}")
+    if r.get("timeout") or r.get("nan"):
+        ctx.count(c, shape + ":skipped")
+        return
+    ctx.count(c, shape)
+    before = r["before"]
+    M = None
+    if ctx.driver_ok:
+        (M,) = driver.call_batch([{"op": "c20", "drv": {
+            "setsBest": "gen", "asDeepcopy": c["as_deepcopy"], "y0": None if c["y0"] is None else [[k, ext(v)] for k, v in c["y0"].items()],
+            "model": before, "p0": [[k, ext(v)] for k, v in c["p0"].items()], "cands": [[ext(x) for x in cd] for cd in c["cands"]],
+            "fail": c["fail"], "table": r["trace"]}}])
+    if "raised" in r:
+        # a y0 entry that is no variable: update_variables raises out of the residual, the minimiser and the fit
+        R = {"raised": r["raised"], "caller_untouched": r["caller"] == before if c["as_deepcopy"] else None}
+        S = {"raised": "KeyError", "caller_untouched": True if c["as_deepcopy"] else None}
+        Mv = None if M is None else {"raised": "KeyError" if not M["y0_ok"] else None,
+                                     "caller_untouched": (M["caller"] == before) if c["as_deepcopy"] else None}
+        ctx.judge({"stream": "drv", **c}, R, S, Mv, what="fit with a y0 entry that is no variable raises KeyError; a copy spares the input")
+        return
+    # --- bookkeeping, exactly: who was evaluated, who won, what the two model objects hold afterwards
+    want_trace = [[ext(v) for v in c["p0"].values()]] + [[ext(x) for x in cd] for cd in c["cands"] if len(cd) == len(names)]
+    vals = [float("inf") if f == "inf" else F(f) for _, f in r["trace"]]
+    ibest = min(range(len(vals)), key=lambda i: vals[i])  # the first least value
+    pn = [n for n in names if n in dict(before["pars"])]
+    vn = [n for n in names if n in dict(before["vars"])]
+    def overlay(table, upd):
+        return [[k, upd.get(k, v)] for k, v in table]
+    y0e = {k: ext(v) for k, v in (c["y0"] or {}).items()}
+    if c["fail"]:
+        Sfit, last = None, dict(zip(names, r["trace"][-1][0]))
+        Swork = {"pars": overlay(before["pars"], {k: last[k] for k in pn}),
+                 "vars": overlay(overlay(before["vars"], y0e), {k: last[k] for k in vn})}
+    else:
+        best = dict(zip(names, r["trace"][ibest][0]))
+        Sfit = {"best": [[k, best[k]] for k in names], "loss": r["trace"][ibest][1]}
+        # the returned model is AT the reported values (other numbers: the caller's, with y0 applied)
+        Swork = {"pars": overlay(before["pars"], {k: best[k] for k in pn}),
+                 "vars": overlay(overlay(before["vars"], y0e), {k: best[k] for k in vn})}
+    Scaller = before if c["as_deepcopy"] else Swork
+    R = {"trace": [xs for xs, _ in r["trace"]], "fit": r["fit"], "caller": r["caller"], "work": r.get("work")}
+    S = {"trace": want_trace, "fit": Sfit, "caller": Scaller, "work": Swork if r.get("work") is not None else None}
+    Mv = None if M is None else {"trace": [[v for _, v in u] for u in M["trace"]], "fit": M["fit"], "caller": M["caller"],
+                                 "work": M["work"] if r.get("work") is not None else None}
+    ctx.judge({"stream": "drv", **c}, R, S, Mv,
+              what="fit.* with a scripted minimiser: evaluated points, reported best/loss, caller's and returned model's values")
+    if r["fit"] is None:
+        return
+    # --- honesty in the property's words, against independent simulations
+    loss = float("inf") if r["fit"]["loss"] == "inf" else float(F(r["fit"]["loss"]))
+    R2 = {"loss_is_residual_at_best": _close(loss, r["hand_best"]), "loss_le_start": loss <= r["hand_p0"] * (1 + 1e-7) + 1e-9,
+          "returned_model_has_reported_loss": _close(loss, r["loss_of_returned_model"]),
+          "returned_is_callers_object": r["same_object"], "input_fingerprint_same": r["caller_fp_same"] if c["as_deepcopy"] else None}
+    S2 = {"loss_is_residual_at_best": True, "loss_le_start": True, "returned_model_has_reported_loss": True,
+          "returned_is_callers_object": not c["as_deepcopy"], "input_fingerprint_same": True if c["as_deepcopy"] else None}
+    ctx.judge({"stream": "drv-honest", **c}, R2, S2, None,
+              what="scripted fit: loss = by-hand residual at best_pars <= at p0; the returned model reproduces the reported loss")
+
+
+# ---- ensembles and joint fits
+def gen_multi_case(rng, which):
+    kind = rng.choice(["steady_state", "time_course", "protocol", "mixed"] if which == "joint" else ["steady_state", "time_course", "protocol"])
+    true = {"k1": 1.0, "k2": 2.0, "k3": 1.0}
+    names = rng.choice([["k2"], ["k2", "k3"], ["k3", "k2"]])
+    p0 = {n: true[n] * rng.choice([0.75, 1.5]) for n in names}
+    cands = [[true[n] * rng.choice([0.5, 0.875, 1.0, 1.125, 2.0]) for n in names] for _ in range(rng.randint(2, 3))]
+    if kind == "steady_state" and rng.random() < 0.7:
+        cands.insert(rng.randrange(len(cands) + 1), [-0.5 if n == "k2" else true[n] for n in names])
+    # members: the same structure with other fixed numbers; for steady states one member may have no steady state at all
+    members = [{"k1": rng.choice([1.0, 2.0, 0.5]), "k3x": rng.choice([1.0, 2.0])} for _ in range(rng.randint(2, 3))]
+    return {which: True, "kind": kind, "true": true, "p0": p0, "cands": cands, "members": members,
+            "loss": rng.choice(["rmse", "mae"]), "as_deepcopy": rng.random() < 0.6}
+
+
+def _member(true, mb):
+    return build("chain", {"k1": mb["k1"], "k2": 1.0, "k3": 2.0 * mb["k3x"]})
+
+
+def real_ensemble_case(c):
+    import logging
+    import warnings
+    os.environ["TQDM_DISABLE"] = "1"
+    logging.getLogger("mxlpy").setLevel(logging.ERROR)
+    warnings.filterwarnings("ignore")
+    from mxlpy import fit
+    from mxlpy.fit import losses
+    true = c["true"]
+    full, proto = make_data(c["kind"], true)
+    data = full[["x", "y"]]
+    models = [_member(true, mb) for mb in c["members"]]
+    before = [fingerprint(m) for m in models]
+    kw = dict(p0=dict(c["p0"]), data=data, loss_fn=getattr(losses, c["loss"]), as_deepcopy=c["as_deepcopy"])
+    if c["kind"] == "protocol":
+        kw["protocol"] = proto
+    ens = getattr(fit, "ensemble_" + FIT_FN[c["kind"]])(models, minimizer=ScriptedMinimizer(c["cands"], fail_if_start_inf=True), **kw)
+    out = {"fits": [{"best": [[k, ext(v)] for k, v in f.best_pars.items()], "loss": ext(f.loss)} for f in ens.fits],
+           "inputs_same": [fingerprint(m) == b for m, b in zip(models, before)]}
+    try:
+        b = ens.get_best_fit()
+        out["best"] = {"best": [[k, ext(v)] for k, v in b.best_pars.items()], "loss": ext(b.loss)}
+    except ValueError:
+        out["best"] = "ValueError"
+    # member by member through the single-model driver, in this process
+    single = []
+    for mb in c["members"]:
+        res = getattr(fit, FIT_FN[c["kind"]])(_member(true, mb), minimizer=ScriptedMinimizer(c["cands"], fail_if_start_inf=True), **kw)
+        v = res.value
+        single.append({"best": [[k, ext(x)] for k, x in v.best_pars.items()], "loss": ext(v.loss)} if type(v).__name__ == "Fit" else None)
+    out["single"] = single
+    return out
+
+
+def judge_ensemble(ctx, c, r):
+    ctx.count(c, f"ens:{c['kind']}:{len(c['members'])}members:{'copy' if c['as_deepcopy'] else 'nocopy'}")
+    if r.get("timeout"):
+        return
+    kept = [f for f in r["single"] if f is not None]
+    key = lambda f: float("inf") if f["loss"] == "inf" else F(f["loss"])  # noqa: E731
+    S = {"fits": kept, "best": min(kept, key=key) if kept else "ValueError", "inputs_same": [True] * len(c["members"])}
+    M = None
+    if ctx.driver_ok:
+        (m,) = driver.call_batch([{"op": "c20", "ens": r["single"]}])
+        M = {"fits": m["kept"], "best": m["best"] if m["best"] is not None else "ValueError", "inputs_same": [True] * len(c["members"])}
+    ctx.judge({"stream": "ens", **c}, {"fits": r["fits"], "best": r["best"], "inputs_same": r["inputs_same"]}, S, M,
+              what="ensemble fit = the members' single fits in order without the failures; get_best_fit = first least loss; inputs untouched")
+
+
+def real_joint_case(c):
+    import logging
+    import warnings
+    logging.getLogger("mxlpy").setLevel(logging.ERROR)
+    warnings.filterwarnings("ignore")
+    from mxlpy import fit
+    from mxlpy.fit import losses
+    true = c["true"]
+    models = [_member(true, mb) for mb in c["members"]]
+    before = [fingerprint(m) for m in models]
+    mini = ScriptedMinimizer(c["cands"])
+    resids = {"steady_state": fit.steady_state_residual, "time_course": fit.time_course_residual,
+              "protocol": fit.protocol_time_course_residual}
+    # the kind of every member: one kind for the joint_<kind> routines, alternating kinds for joint_mixed
+    kinds = [["steady_state", "time_course", "protocol"][i % 3] if c["kind"] == "mixed" else c["kind"] for i in range(len(models))]
+    made = {k: make_data(k, true) for k in set(kinds)}
+    datas = [made[k][0][["x", "y"]] for k in kinds]
+    protos = [made[k][1] for k in kinds]
+    kw = dict(p0=dict(c["p0"]), minimizer=mini, loss_fn=getattr(losses, c["loss"]), as_deepcopy=c["as_deepcopy"], max_workers=2)
+    if c["kind"] == "mixed":
+        res = fit.joint_mixed([fit.MixedSettings(model=m, data=d, residual_fn=resids[k], protocol=pr)
+                               for m, d, k, pr in zip(models, datas, kinds, protos)], **kw)
+    else:
+        fn = {"steady_state": fit.joint_steady_state, "time_course": fit.joint_time_course,
+              "protocol": fit.joint_protocol_time_course}[c["kind"]]
+        res = fn([fit.FitSettings(model=m, data=d, protocol=pr) for m, d, pr in zip(models, datas, protos)], **kw)
+    v = res.value
+    out = {"fit": {"best": [[k, ext(x)] for k, x in v.best_pars.items()], "loss": ext(v.loss)} if type(v).__name__ == "JointFit" else None,
+           "trace": [[[ext(x) for x in xs], ext(f)] for xs, f in mini.trace], "inputs_same": [fingerprint(m) == b for m, b in zip(models, before)]}
+    # every member's own residual at every evaluated point, computed here on fresh models
+    parts = []
+    for xs, _ in mini.trace:
+        upd = dict(zip(c["p0"], xs))
+        parts.append([ext(resids[k](upd, settings_for(k, _member(true, mb), d, pr, c["loss"], True, c["p0"])))
+                      for mb, k, d, pr in zip(c["members"], kinds, datas, protos)])
+    out["parts"] = parts
+    return out
+
+
+def judge_joint(ctx, c, r):
+    ctx.count(c, f"joint:{c['kind']}:{len(c['members'])}members:{'copy' if c['as_deepcopy'] else 'nocopy'}")
+    if r.get("timeout"):
+        return
+    fl = lambda t: float("inf") if t == "inf" else float(F(t))  # noqa: E731
+    sums = [sum(fl(t) for t in ps) for ps in r["parts"]]
+    Ms = None
+    if ctx.driver_ok:
+        Ms = [fl(t) for t in driver.call_batch([{"op": "c20", "sum": ps} for ps in r["parts"]])]
+    ibest = min(range(len(sums)), key=lambda i: sums[i])
+    R = {"sums_close": all(_close(fl(f), s, 1e-12) for (_, f), s in zip(r["trace"], sums)),
+         "best": r["fit"]["best"] if r["fit"] else None, "loss_is_sum_at_best": r["fit"] is not None and _close(fl(r["fit"]["loss"]), sums[ibest], 1e-12),
+         "inputs_same": r["inputs_same"]}
+    S = {"sums_close": True, "best": [[k, x] for k, x in zip(c["p0"], r["trace"][ibest][0])], "loss_is_sum_at_best": True,
+         "inputs_same": [True] * len(c["members"])}
+    M = None if Ms is None else {"sums_close": all(_close(fl(f), s, 1e-12) for (_, f), s in zip(r["trace"], Ms)),
+                                 "best": S["best"], "loss_is_sum_at_best": _close(fl(r["fit"]["loss"]), Ms[ibest], 1e-12) if r["fit"] else False,
+                                 "inputs_same": [True] * len(c["members"])}
+    ctx.judge({"stream": "joint", **c}, R, S, M,
+              what="joint fit: the objective is the sum of the members' residuals (inf if any failed); best = first least sum; inputs untouched")
+
+
+# ---- a residual is a function of the candidate: repeated / interleaved evaluations on ONE settings object
+PROTO_SHAPES = {
+    "every-step-names-k1": lambda t: [(t / 2, {"k1": 1.0}), (t / 2, {"k1": 2.0})],
+    "disjoint-steps": lambda t: [(t / 2, {"k3": 1.0}), (t / 2, {"k1": 2.0})],
+    "later-step-adds-k3": lambda t: [(t / 2, {"k1": 1.0}), (t / 2, {"k1": 2.0, "k3": 0.5})],
+    "three-steps": lambda t: [(t / 4, {"k2": 2.0}), (t / 4, {"k1": 0.5}), (t / 2, {"k3": 2.0, "k2": 1.0})],
+}
+
+
+def gen_pure_case(rng):
+    kind = rng.choice(["steady_state", "time_course", "protocol", "protocol", "protocol"])
+    names = rng.sample(["k1", "k2", "k3", "x"], rng.randint(1, 2))
+    mk = lambda: {n: rng.choice([0.5, 1.0, 1.5, 2.0, 3.0]) for n in names}  # noqa: E731
+    a, b = mk(), mk()
+    return {"pure": True, "kind": kind, "shape": rng.choice(sorted(PROTO_SHAPES)) if kind == "protocol" else None,
+            "seq": [a, b, a, a], "y0": rng.choice([None, None, {"y": 0.25}]), "loss": rng.choice(["rmse", "mae"]),
+            "scaled": rng.random() < 0.5}
+
+
+def real_pure_case(c):
+    import logging
+    import warnings
+
+    import numpy as np
+    logging.getLogger("mxlpy").setLevel(logging.ERROR)
+    warnings.filterwarnings("ignore")
+    from mxlpy import Simulator, fit, make_protocol
+    true = {"k1": 1.0, "k2": 2.0, "k3": 1.0}
+    proto = None
+    if c["kind"] == "protocol":
+        t_end = 4.0
+        proto = make_protocol(PROTO_SHAPES[c["shape"]](t_end))
+        tp = np.linspace(t_end / 8, t_end, 8)
+        comb = Simulator(build("chain", true)).simulate_protocol_time_course(protocol=proto, time_points=tp).get_result().unwrap_or_err().get_combined()
+        data = comb.loc[[t for t in comb.index if any(abs(t - u) < 1e-12 for u in tp)], ["x", "y"]]
+    else:
+        full, _ = make_data(c["kind"], true)
+        data = full[["x", "y"]]
+    resid = {"steady_state": fit.steady_state_residual, "time_course": fit.time_course_residual,
+             "protocol": fit.protocol_time_course_residual}[c["kind"]]
+    model = build("chain", true)
+    before = vals_of(model)
+    names = list(c["seq"][0])
+    shared = settings_for(c["kind"], model, data, proto, c["loss"], c["scaled"], names, y0=c["y0"])
+    v_shared = [float(resid(dict(u), shared)) for u in c["seq"]]
+    v_fresh = [float(resid(dict(u), settings_for(c["kind"], build("chain", true), data, proto, c["loss"], c["scaled"], names, y0=c["y0"])))
+               for u in c["seq"]]
+    return {"shared": [ext(v) for v in v_shared], "fresh": [ext(v) for v in v_fresh], "before": before, "after": vals_of(model),
+            "nan": any(v != v for v in v_shared + v_fresh)}
+
+
+def judge_pure(ctx, c, r):
+    ctx.count(c, f"pure:{c['kind']}:{c['shape'] or '-'}:{'+'.join(c['seq'][0])}:y0={'none' if c['y0'] is None else '+'.join(c['y0'])}")
+    if r.get("timeout") or r.get("nan"):
+        return
+    names = list(c["seq"][0])
+    last = {k: ext(v) for k, v in c["seq"][-1].items()}
+    y0e = {k: ext(v) for k, v in (c["y0"] or {}).items()}
+    S = {"values": r["fresh"],
+         "after": {"pars": [[k, last.get(k, v)] for k, v in r["before"]["pars"]],
+                   "vars": [[k, last.get(k, y0e.get(k, v))] for k, v in r["before"]["vars"]]}}
+    M = None
+    if ctx.driver_ok:
+        (m,) = driver.call_batch([{"op": "c20", "drv": {
+            "setsBest": False, "asDeepcopy": False, "y0": None if c["y0"] is None else [[k, ext(v)] for k, v in c["y0"].items()],
+            "model": r["before"], "p0": [[k, ext(v)] for k, v in c["seq"][0].items()],
+            "cands": [[ext(u[k]) for k in names] for u in c["seq"][1:]], "fail": True, "table": []}}])
+        M = {"values": r["fresh"], "after": m["work"]}
+    ctx.judge({"stream": "pure", **c}, {"values": r["shared"], "after": r["after"]}, S, M,
+              what="residual evaluated repeatedly / interleaved on one settings object = evaluated on a fresh one; the model holds the last candidate")
+
+
+def _real_fn(c):
+    for key, fn in (("quad", real_quad_case), ("drv", real_driver_case), ("ens", real_ensemble_case), ("joint", real_joint_case),
+                    ("pure", real_pure_case)):
+        if c.get(key):
+            return fn
+    return real_fit_case
+
+
+def _judge_fit_like(ctx, c, r):
+    if c.get("quad"):
+        if not r.get("timeout"):
+            judge_quad(ctx, c, r)
+    elif c.get("drv"):
+        judge_driver(ctx, c, r)
+    elif c.get("ens"):
+        judge_ensemble(ctx, c, r)
+    elif c.get("joint"):
+        judge_joint(ctx, c, r)
+    elif c.get("pure"):
+        judge_pure(ctx, c, r)
+    else:
+        judge_fit(ctx, c, r)
+
+
 def run_fit_cases(cases, timeout=120):
     """every case in its own worker process with a wall-clock limit (an optimiser may walk into a stiff corner)"""
     import pebble
     out = []
     with pebble.ProcessPool(max_workers=min(16, os.cpu_count() or 4)) as pool:
-        futs = [pool.schedule(real_quad_case if c.get("quad") else real_fit_case, args=(c,), timeout=timeout) for c in cases]
+        futs = [pool.schedule(_real_fn(c), args=(c,), timeout=timeout) for c in cases]
         for f in futs:
             try:
                 out.append(f.result())
@@ -851,6 +1396,8 @@ def run(ctx):
     loss_cases = [gen_loss_case(rng, name) for name in ALL for _ in range(ctx.n(60, 1500))]
     # the round-0 witnesses
     loss_cases += [{"loss": "cosine_similarity", "d": ["1", "2", "3"], "p": ["1", "2", "3"], "lam": "10", "frame": False},
+                   {"loss": "cosine_similarity", "d": ["1", "2", "3"], "p": ["3", "2", "1"], "lam": "10", "frame": False},
+                   {"loss": "cosine_similarity", "d": ["1", "2", "3", "4"], "p": ["-1", "-2", "-3", "-4"], "lam": "2", "frame": True},
                    {"loss": "mean", "d": ["1"], "p": ["101"], "lam": "2", "frame": False},
                    {"loss": "mean", "d": ["0", "2"], "p": ["1", "1"], "lam": "2", "frame": False}]
     set_cases = [{"loss": rng.choice(["mean_squared", "mae"]), "d": c["d"], "p": c["p"], "on": rng.random() < 0.6}
@@ -858,10 +1405,22 @@ def run(ctx):
     # data without spread: one measurement, constant measurements
     set_cases += [{"loss": rng.choice(["mean_squared", "mae"]), "d": d, "p": [q(F(x) + rng.choice([0, F(1, 2), -1])) for x in d], "on": True}
                   for d in (["3/2"], ["2", "2"], ["-1/4", "-1/4", "-1/4", "-1/4"], ["5"])]
+    # data frames (time-course / protocol fits): dense, constant column, a single row, a column measured only once
+    set_cases += [gen_frame_settings_case(rng, shape) for shape in ("dense", "constant-column", "one-row", "measured-once")
+                  for _ in range(ctx.n(4, 60))]
     # the percentage loss divides by its FIRST argument: this is where the argument order of _Settings.loss shows
     set_cases += [{"loss": "mean_absolute_percentage", "d": c["d"], "p": c["p"], "on": False}
                   for c in (gen_loss_case(rng, "mean_absolute_percentage") for _ in range(ctx.n(12, 200)))]
-    fit_cases = gen_fit_cases(ctx) + [gen_quad_case(rng) for _ in range(ctx.n(40, 600))]
+    # the pool-spawning cases go first so that they overlap with the cheap ones
+    fit_cases = [gen_multi_case(rng, "ens") for _ in range(ctx.n(2, 12))] + [gen_multi_case(rng, "joint") for _ in range(ctx.n(3, 10))]
+    fit_cases += gen_fit_cases(ctx) + [gen_quad_case(rng) for _ in range(ctx.n(40, 600))]
+    # every global method once on a fixed request whose box for k1 EXCLUDES the target (5): the methods that take
+    # bounds end on the box, basinhopping ignores it (F-C20-9)
+    fit_cases += [{"quad": True, "kind": "steady_state", "p0": {"k1": "6", "k2": "3/2"}, "target": {"k1": "5", "k2": "2"},
+                   "method": "L-BFGS-B", "global": g, "np_seed": 7, "bounds": {"k2": ["1", "4"], "k1": ["45/8", "15"]}}
+                  for g in ("differential_evolution", "shgo", "dual_annealing", "direct", "basinhopping")]
+    fit_cases += [gen_driver_case(rng) for _ in range(ctx.n(28, 300))]
+    fit_cases += [gen_pure_case(rng) for _ in range(ctx.n(20, 250))]
     import mxlpy  # noqa: F401
     with cf.ProcessPoolExecutor(max_workers=4) as ex:
         chunks = [loss_cases[i:i + 100] for i in range(0, len(loss_cases), 100)]
@@ -875,12 +1434,7 @@ def run(ctx):
     for c, r in zip(set_cases, Rs):
         judge_settings(ctx, c, r)
     for c, r in zip(fit_cases, Rf):
-        if c.get("quad"):
-            if r.get("timeout"):
-                continue
-            judge_quad(ctx, c, r)
-        else:
-            judge_fit(ctx, c, r)
+        _judge_fit_like(ctx, c, r)
     if not ctx.proof_ok or ctx.drift:
         ctx.notes.append("proof/correspondence broken: the run above is the failing-input search")
     if os.environ.get("C20_DEBUG"):
@@ -904,7 +1458,4 @@ def replay(ctx, rp):
     else:
         (r,) = run_fit_cases([c])
         print("R =", r)
-        if c.get("quad"):
-            judge_quad(ctx, c, r)
-        else:
-            judge_fit(ctx, c, r)
+        _judge_fit_like(ctx, c, r)
